@@ -2,8 +2,8 @@
 
 Pipeline
   1. translator: regenerate Gen/NumbaIntegrate.v (one kernel step is a function of row j, the
-     increment, dt and the flag only) and Gen/C13Gen.v (the step does not depend on what the
-     buffers held in row j+1 before the call);
+     increment, dt and the flag only) and trace the step into garbage-filled buffers (the step does
+     not depend on what the buffers held in row j+1 before the call; tools/reg/c13.py);
   2. proofs: Props/C02.v (all histories, any kstep/to_pub/of_pub, any capacity >= 1, both modes);
   3. correspondence of Model/Integrator.v with pyins.strapdown.Integrator: call histories from a
      grammar are run on the real class (bounds-guarded kernel, INITIAL_SIZE monkeypatched) and on
@@ -928,10 +928,33 @@ def printed_model_sample(r, results, k):
         r.case(('printed',) + hist_key(h))
 
 
+def kernel_premise(r):
+    """translator premise: trace one kernel step (both modes) into buffers whose row j+1 holds undeclared
+    symbolic garbage (tools/reg/c13.py); the trace fails closed if any of the 15 components of the new
+    row depends on anything but row j, the increment, dt and the flag, or is left unwritten."""
+    try:
+        import gen
+        with common.Lock():
+            rng = random.Random(r.seed)
+            for e in gen.REGISTRY:
+                if e['name'] in ('c13_kstep2d_fresh', 'c13_kstep3d_fresh'):
+                    ctx, paths = gen.trace_entry(e)
+                    st = []
+                    gen.validate_entry(e, ctx, paths, rng, st)
+                    r.coverage.setdefault('translator', []).extend(st)
+                    r.evaluations += sum(x['samples'] for x in st)
+                    if len(paths) != 1:
+                        r.broken('translator', e['name'], f"{len(paths)} paths: the kernel step branches on data")
+        r.log("translator: kernel step is a function of (row j, increment, dt, flag) only, in both modes")
+    except Exception:
+        r.broken('translator', 'kernel step premise', traceback.format_exc())
+
+
 def check(r):
     r.trusted += [
         "translator tools/sym.py + tools/ir2coq.py: one kernel step (step2d_*/step3d_*) is a function of row j, "
-        "increment, dt and flag only; Gen/C13Gen.v: it does not depend on the previous content of row j+1",
+        "increment, dt and flag only; tools/reg/c13.py (c13_kstep*_fresh): it does not depend on the previous "
+        "content of row j+1",
         "tools/props/C02.py: evaluation of provenance terms by single-row calls of the compiled kernel, "
         "transform.mat_from_rph / mat_to_rph; bitwise comparison by ndarray.tobytes()",
         "pandas/numpy container semantics (DataFrame.iloc, pd.concat, ndarray.resize keeps the prefix) are "
@@ -942,7 +965,8 @@ def check(r):
         "function (same bits for the same row/increment, whatever the batch size and buffer position) is checked "
         "by the correspondence run, not proved",
     ]
-    r.generate(['NumbaIntegrate', 'C13Gen'])
+    if r.generate(['NumbaIntegrate']):
+        kernel_premise(r)
     r.prove('Props/C02.v')
 
     rng = random.Random(r.seed + 2)
